@@ -9,6 +9,7 @@ package main
 //	t <thread> [y] <op...>     op of goroutine <thread> (program order = line order);
 //	                           `y` = runtime.Gosched() before the call                -> q
 //	post <op...>               op executed sequentially after all goroutines joined   -> q
+//	                           (any component: `sleep <ms>` = the thread sleeps; result `*`)
 //	run [lockstep]             executes everything; `lockstep`: the goroutines meet at a spin barrier
 //	                           before their i-th operation (maximal overlap) -> the history, one line:
 //	                           h <thread>.<index>:<inv>:<ret>:<result> ...
@@ -72,6 +73,10 @@ func safeDo(o conObj, f []string) (res string) {
 			res = "panic=" + msg
 		}
 	}()
+	if len(f) == 2 && f[0] == "sleep" {
+		time.Sleep(time.Duration(Atou(f[1])) * time.Millisecond)
+		return "*"
+	}
 	return o.Do(f)
 }
 
